@@ -501,7 +501,8 @@ namespace raptor
                     solve_times[4] += mat_t;
                 }
 
-                while (r_norm > solve_tol && iter < max_iterations)
+                // a residual that is not a number is not below the tolerance
+                while (!(r_norm <= solve_tol) && iter < max_iterations)
                 {
                     cycle(sol, rhs, 0);
 
